@@ -215,6 +215,8 @@ def gen_case(rng, root_user, big=False):
         if any(ents.get(loc[:i], {}).get("kind") not in (None, "dir") for i in range(1, len(loc))):
             continue
         r = rng.random()
+        if r >= 0.30 and any(tuple(o[:len(loc)]) == loc for o in list(ents) + dirs if len(o) > len(loc)):
+            continue                        # a non-directory entry cannot sit above another entry of the set
         if r < 0.30:
             e = {"kind": "dir"}
             dirs.append(loc)
@@ -255,6 +257,29 @@ def gen_case(rng, root_user, big=False):
                     g["mtime"] = f.get("mtime", 0) + 1      # same key but not linkable
                 ents[loc] = g
             key += 1
+    # twins WITHOUT inode information: hand-built / vdb-style file entries carry dev = inode = None and all
+    # fall under the grouping key (None, None); files that agree in uid, gid, mode and mtime (also: all unset)
+    # but differ in data must still be copied, never linked
+    plain_files = [e for e in ents.values() if e["kind"] == "file" and "hl" not in e]
+    if plain_files and rng.random() < 0.5:
+        f = rng.choice(plain_files)
+        if rng.random() < 0.25:
+            for k in ("mode", "uid", "gid", "mtime"):
+                f.pop(k, None)                          # the all-unset variant (mtime reads as 0 for both)
+        for _ in range(rng.randint(1, 2)):
+            parent = rng.choice(dirs)
+            loc = parent + (rng.choice(names) + rng.choice(["", "3"]),)
+            if loc in ents or loc in dirs or any(tuple(o[:len(loc)]) == loc for o in list(ents) + dirs if len(o) > len(loc)):
+                continue
+            if any(ents.get(loc[:i], {}).get("kind") not in (None, "dir") for i in range(1, len(loc))):
+                continue
+            g = dict(f)
+            g["loc"] = loc
+            g["data"] = bytes(rng.randrange(256) for _ in range(rng.choice([0, 2, 5, len(f["data"])])))
+            if g["data"] == f["data"]:
+                g["data"] += b"!"
+            g["src"] = rng.choice(["mem", "disk"])
+            ents[loc] = g
     cset = list(ents.values())
     rng.shuffle(cset)
 
